@@ -28,12 +28,13 @@ class C05(Check):
     theorems = ["Pox.C05.reachable_inv", "Pox.C05.sorted_inv", "Pox.C05.delivery_exact", "Pox.C05.delivery_order", "Pox.C05.reentrant_safe",
                 "Pox.C05.once_removed", "Pox.C05.unsubscribe_exact", "Pox.C05.sources_independent", "Pox.C05.noerrors_partial",
                 "Pox.C05.noerrors_defect", "Pox.C05.undeclared_rejected", "Pox.C05.weak_gone", "Pox.C05.lazy_init",
-                "Pox.C05.once_raises_defect", "Pox.Revent.drive_eq_run"]
+                "Pox.C05.once_raises_defect", "Pox.C05.noerrors_fixed", "Pox.C05.once_removed_raising", "Pox.C05.insertion_position",
+                "Pox.C05.bind_prefix_exact", "Pox.Revent.drive_eq_run"]
     # name-based anchors, resolved on the current source at every run (robust to line shifts); the range of a definition
     # starts at its first statement after the docstring (the `def` line itself only runs at import time)
     ANCHORED = [("pox/lib/revent/revent.py", q) for q in (
                     "EventMixin._eventMixin_init", "EventMixin.raiseEventNoErrors", "EventMixin.raiseEvent",
-                    "EventMixin._eventMixin_get_listener_count", "EventMixin.removeListener", "EventMixin.addListenerByName",
+                    "EventMixin._eventMixin_get_listener_count", "EventMixin.removeListeners", "EventMixin.removeListener", "EventMixin.addListenerByName",
                     "EventMixin.add_listener", "EventMixin.addListener", "EventMixin.listenTo", "EventMixin.addListeners",
                     "EventMixin.clearHandlers", "autoBindEvents", "CallProxy.__init__", "CallProxy._forgetMe", "CallProxy.__call__")] + \
                [("pox/core.py", "_revent_exception_hook")]
@@ -185,8 +186,8 @@ class C05(Check):
             srcs.append(type("Src%d" % i, (rv.EventMixin,), ns)())
         base = rv._nextEventID
         scripts = {h: l for h, l in case["scripts"]}
-        log, snaps, rmchecks, addchecks, subs = [], {}, [], [], []
-        calls, funcs, owners, sinks, keep = {}, {}, {}, {}, []
+        log, snaps, rmchecks, addchecks, subs, bindchecks = [], {}, [], [], [], []
+        calls, funcs, owners, sinks, keep, running, deaths = {}, {}, {}, {}, [], [], []
         state = {"fid": 0}
         EMPTY = {"halt": None, "acts": [], "ret": {"k": "none"}}
 
@@ -213,7 +214,14 @@ class C05(Check):
                 if any(pred(e) for e in l): return True
             return False
 
-        def run_handler(hid, event):
+        def run_handler(hid, event, owner=None):
+            if owner is not None: running.append(owner)
+            try:
+                return run_handler_(hid, event)
+            finally:
+                if owner is not None: running.pop()
+
+        def run_handler_(hid, event):
             k = calls.get(hid, 0); calls[hid] = k + 1
             fid = event.fid
             si = [j for j, s_ in enumerate(srcs) if s_ is event.source]
@@ -250,7 +258,7 @@ class C05(Check):
         def method_of(hid, o):                  # bound method of owner o: weak subscriptions
             if o not in owners:
                 owners[o] = type("Owner", (object,), {})(); owners[o].oid = o
-            def m(self_, event, _hid=hid): return run_handler(_hid, event)
+            def m(self_, event, _hid=hid): return run_handler(_hid, event, getattr(self_, "oid", None))
             m.hid = hid
             return types.MethodType(m, owners[o])
 
@@ -281,24 +289,30 @@ class C05(Check):
                 subs.append([i, r[1] - base, r[0].idx, hid, bool(a["once"]), weak])
                 return ["pair", r[0].idx, r[1] - base]
             if op == "bind":
-                ets, hb, weak = a["ets"], a["base"], a.get("weak")
+                meths, q, hb, weak = a["meths"], a["pfx"], a["base"], a.get("weak")
+                mname = lambda p_, et: ("_handle_Ev%d" % et) if p_ == 0 else ("_handle_p%d_Ev%d" % (p_, et))
                 ns = {}
-                for et in ets:
-                    def m(self_, event, _hid=hb + et): return run_handler(_hid, event)
-                    m.hid = hb + et
-                    ns["_handle_Ev%d" % et] = m
-                via = a.get("via", 0) % 3
-                sink = type("Sink", (rv.EventMixin,) if via == 2 else (object,), ns)()
+                for p_, et in meths:
+                    def m(self_, event, _hid=hb + 10 * p_ + et): return run_handler(_hid, event, getattr(self_, "oid", None))
+                    m.hid = hb + 10 * p_ + et
+                    ns[mname(p_, et)] = m
+                via = a.get("via", 0) % 6
+                sink = type("Sink", (rv.EventMixin,) if via % 3 == 2 else (object,), ns)()
                 if weak is not None:
                     sink.oid = weak; owners[weak] = sink
                 else:
                     keep.append(sink)
-                for et in ets: sinks[hb + et] = (sink, "_handle_Ev%d" % et)
-                if via == 1: r = src.addListeners(sink, weak=weak is not None, priority=a["prio"])
-                elif via == 2: r = sink.listenTo(src, weak=weak is not None, priority=a["prio"])
-                else: r = rv.autoBindEvents(sink, src, weak=weak is not None, priority=a["prio"])
-                for t, e in r: subs.append([i, e - base, t.idx, hb + t.idx, False, weak])
+                for p_, et in meths: sinks[hb + 10 * p_ + et] = (sink, mname(p_, et))
+                prefix = "" if q == 0 else (("p%d" % q) if via < 3 else ("_p%d" % q))       # both spellings of a prefix
+                w, pr = weak is not None, a["prio"]
+                if via % 3 == 1: r = src.addListeners(sink, prefix, w, pr) if via < 3 else src.addListeners(sink, prefix=prefix, weak=w, priority=pr)
+                elif via % 3 == 2: r = sink.listenTo(src, prefix, w, pr) if via < 3 else sink.listenTo(src, prefix=prefix, weak=w, priority=pr)
+                else: r = rv.autoBindEvents(sink, src, prefix, w, pr) if via < 3 else rv.autoBindEvents(sink, src, prefix=prefix, weak=w, priority=pr)
+                for t, e in r: subs.append([i, e - base, t.idx, hb + 10 * q + t.idx, False, weak])
+                bindchecks.append([i, [t.idx for t, _ in r], [et for p_, et in meths if p_ == q]])
                 return ["pairs", [[t.idx, e - base] for t, e in r]]
+            if op == "rmm":
+                return bool(src.removeListeners([(Ev[et], base + eid) for et, eid in a["pairs"]]))
             if op in ("rmh", "rme", "rmp"):
                 if op == "rmh":
                     arg, scope = handler_for_removal(a["hid"]), a.get("et")
@@ -323,7 +337,9 @@ class C05(Check):
             if op == "count":
                 return src._eventMixin_get_listener_count()
             if op == "drop":
+                if a["o"] in running: return "unit"          # one of its methods is executing: CPython would keep it alive anyway
                 o = owners.pop(a["o"], None)
+                if o is not None: deaths.append([a["o"], len(log)])
                 for h in [h for h, (snk, _) in sinks.items() if snk is o]: del sinks[h]      # the harness itself must not keep the sink alive
                 wr = weakref.ref(o) if o is not None else (lambda: None)
                 del o; gc.collect(1)
@@ -363,7 +379,7 @@ class C05(Check):
         final = [dump(i) for i in range(n)]
         return {"log": log, "frames": frames, "final": final, "count": [sum(len(l) for _, l in f) for f in final],
                 "inited": [hasattr(s_, "_eventMixin_handlers") for s_ in srcs],
-                "snaps": {str(k): v for k, v in snaps.items()}, "rmchecks": rmchecks, "addchecks": addchecks, "drops": drops, "subs": subs}
+                "snaps": {str(k): v for k, v in snaps.items()}, "rmchecks": rmchecks, "addchecks": addchecks, "drops": drops, "subs": subs, "bindchecks": bindchecks, "deaths": deaths}
 
     # ------------------------------------------------------------------ model side
     def model_request(self, case):
@@ -431,18 +447,39 @@ class C05(Check):
                     return "undeclared: class-form raise of an undeclared event type produced an event"
                 continue
             if any(si != s["s"] for _, _, si in C): return "delivery: handler invoked with an event of another source"
-            if got != want[:len(got)]:
-                kind = "repeat" if len(set(got)) < len(got) and len(set(want)) == len(want) else ("extra" if len(got) > len(want) else "order/skip")
-                return "delivery%s: handlers invoked %s, subscribed at the raise %s (%s)" % ("-reentrant" if nested else "", got, want, kind)
+            # entries whose (weak) owner was collected while this delivery was running are excused: the proxy answers by itself
+            dead_during = lambda ent: ent[4] is not None and any(o == ent[4] and pos >= s["pos"] for o, pos in obs["deaths"])
+            # an alignment of the invoked handlers with the snapshot in which every skipped entry is excused, and the tail is
+            # either excused too (complete) or cut off by a stop
+            halted = bool(R and len(R) == len(C) and self._stops(R[-1][2], R[-1][3]))
+            proxy_raised = s["result"] == ["exc", "revent"] or (s["noerr"] and s["result"] == "none")
+            def align(i, j):
+                if j == len(got):
+                    tail = S[i:]
+                    if all(dead_during(e) for e in tail): return []
+                    if halted and (j > 0): return []
+                    if proxy_raised and any(dead_during(e) for e in tail[:1 + next((k for k, e in enumerate(tail) if not dead_during(e)), len(tail))]): return []
+                    return None
+                if i == len(S): return None
+                if got[j] == S[i][1]:
+                    r_ = align(i + 1, j + 1)
+                    if r_ is not None: return [S[i]] + r_
+                if dead_during(S[i]): return align(i + 1, j)
+                return None
+            matched = align(0, 0)
             if any(self._stops(r, h) for _, _, r, h in R[:-1]): return "halt: delivery went on after a handler halted it"
-            if len(got) < len(want) and not (R and len(R) == len(C) and self._stops(R[-1][2], R[-1][3])):
-                return "delivery%s: handlers invoked %s, subscribed at the raise %s (skip)" % ("-reentrant" if nested else "", got, want)
+            if matched is None:
+                if got != want[:len(got)]:
+                    kind = "repeat" if len(set(got)) < len(got) and len(set(want)) == len(want) else ("extra" if len(got) > len(want) else "order/skip")
+                else:
+                    kind = "skip"
+                return "delivery%s: handlers invoked %s, subscribed at the raise %s (%s)" % ("-reentrant" if nested else "", got, want, kind)
             # error suppression
-            if s["noerr"] and isinstance(s["result"], list) and s["result"][0] == "exc" and got:
+            if s["noerr"] and isinstance(s["result"], list) and s["result"][0] == "exc":
                 return "noerrors: raiseEventNoErrors propagated a handler's %s" % s["result"][1]
             # one-shot / remove-me handlers are not invoked by later raises
             for j, (pos, hid, r, _) in enumerate(R):
-                ent = S[j]
+                ent = matched[j]
                 raised = isinstance(r, list) and r[0] == "exc"
                 if ent[2] or (not raised and self._removes(r)):
                     later = [t["snap"] for f2, t in snaps.items() if t["pos"] > pos and t["s"] == s["s"]] + [l for _, l in obs["final"][s["s"]]]
@@ -455,7 +492,7 @@ class C05(Check):
         # ... and nothing else: a subscription nobody had any reason to remove is still there at the end
         acts = list(case["ops"]) + [a for _, sl in case["scripts"] for sc_ in sl for a, _ in sc_["acts"]]
         if not any(a["op"] == "clear" for a in acts):
-            named_eids = set(a["eid"] for a in acts if a["op"] in ("rme", "rmp"))
+            named_eids = set(a["eid"] for a in acts if a["op"] in ("rme", "rmp")) | set(e for a in acts if a["op"] == "rmm" for _, e in a["pairs"])
             named_hids = set(a["hid"] for a in acts if a["op"] == "rmh")
             dropped = set(a["o"] for a in acts if a["op"] == "drop")
             asking = set(h for h, sl in case["scripts"] for sc_ in sl
@@ -466,6 +503,10 @@ class C05(Check):
                     continue
                 if eid not in final[si].get(et, ()):
                     return "unsubscribe: subscription %d (handler %d) vanished although nothing unsubscribed it" % (eid, hid)
+        # subscription by method name: exactly the sink's methods with the given prefix whose event the source declares, in name order
+        for si, got_ets, named in obs["bindchecks"]:
+            if got_ets != [et for et in named if declared(si, et)]:
+                return "bind: autoBindEvents subscribed %s, the sink's methods with that prefix name %s" % (got_ets, named)
         # undeclared subscription
         for si, et, res, unchanged in obs["addchecks"]:
             if not declared(si, et) and res != "revent":
@@ -556,6 +597,9 @@ class C05(Check):
         cnt = lambda s=0: {"op": "count", "s": s}
         clr = lambda s=0: {"op": "clear", "s": s}
         drop = lambda o: {"op": "drop", "s": 0, "o": o}
+        def bind(ms, base, prio=0, weak=None, via=0, pfx=0, s=0):
+            ms = [(0, m) if isinstance(m, int) else tuple(m) for m in ms]
+            return {"op": "bind", "s": s, "meths": [list(m) for m in sorted(ms)], "pfx": pfx, "base": base, "prio": prio, "weak": weak, "via": via}
         S = []
         # D1: A subscribes a prioritised C during delivery
         S.append(case([add(0, 1), add(0, 2), R(0), R(0)], [(1, [sc([(add(0, 3, prio=5), False)])])]))
@@ -599,24 +643,41 @@ class C05(Check):
             for et in (0, 3, 5, 2, 4):
                 ops += [R(et), R(et, "cls"), R(et, "inst", True), R(et, "cls", True)]
             ops += [add(3, 6, via=1), add(5, 6, via=3), add(4, 6, via=2), add(3, 6, via=4),
-                    {"op": "bind", "s": 0, "ets": [0, 2, 3, 4, 5], "base": 100, "prio": 0, "weak": None, "via": 0}, R(0), R(3), R(5), R(4), cnt()]
+                    bind([0, 2, 3, 4, 5], 100), R(0), R(3), R(5), R(4), cnt()]
             S.append(case(ops, [(1, [sc(), sc([(R(3), True), (R(5, "inst", True), True), (add(3, 7), True)])])], declared=d))
         # by-name spellings
         S.append(case([add(0, 1, via=1), add(0, 2, 5, via=3), add(1, 3, via=2, once=True), add(1, 4, 2, via=4), add(2, 5, via=4), R(0), R(1), R(1)]))
         # a source whose __init__ never ran: every entry point but the counter initialises lazily
         for first in (R(0), R(0, "cls"), R(0, "inst", True), R(2), add(0, 1), add(2, 1), rme(1), rmh(1), rmp(0, 1), rmh(1, 0), clr(), cnt(), drop(1),
-                      {"op": "bind", "s": 0, "ets": [2], "base": 100, "prio": 0, "weak": None, "via": 0},
-                      {"op": "bind", "s": 0, "ets": [0, 1], "base": 100, "prio": 0, "weak": None, "via": 1}):
+                      bind([2], 100), bind([0, 1], 100, via=1), {"op": "rmm", "s": 0, "pairs": [[0, 1]]}, {"op": "rmm", "s": 0, "pairs": []}):
             S.append(case([first, cnt(), add(0, 2), cnt(), R(0)], lazy=True))
         S.append(case([cnt(), add(0, 1, weak=1), cnt()], lazy=True, acceptAll=True, declared=[]))
         # weak handlers
         S.append(case([add(0, 1, weak=1), add(0, 2), add(1, 3, weak=1, prio=3), add(0, 4, weak=2), R(0), rmh(1), R(0), drop(1), R(0), R(1),
                        cnt(), drop(2), R(0), add(0, 1, weak=1), R(0)]))
+        # an owner collected in the middle of a delivery that still has its handlers in the snapshot: they answer None by themselves;
+        # after clearHandlers the proxy cannot remove itself and raises ReventError("object is gone"); an owner whose method is running stays
+        for noerr in (False, True):
+            for pre in ([], [clr()]):
+                S.append(case([add(0, 1), add(0, 2, weak=1), add(0, 3, weak=2, once=True), add(0, 4), add(1, 5, weak=1), R(0, "inst", noerr), R(0), R(1), cnt()],
+                              [(1, [sc([(a_, False) for a_ in pre] + [(drop(1), False), (R(1, "cls", noerr), True)])]),
+                               (3, [sc([(drop(2), False), (drop(1), False)])])]))
+        S.append(case([add(0, 1, weak=1), add(0, 2, weak=1), add(0, 3, weak=2), R(0), R(0)],
+                      [(1, [sc([(drop(1), False), (drop(2), False), (R(0), True)])]), (3, [sc(ret="true")])]))
+        S.append(case([add(0, 1, s=0), add(0, 2, weak=1, s=0), add(0, 3, weak=1, s=1), add(0, 4, s=1), R(0, s=1), R(0, s=0)],
+                      [(4, [sc([(R(0, s=0), False)])]), (1, [sc([(clr(1), False), (drop(1), False)])])], sources=[source([0]), source([0])]))
         # autoBind in its three spellings, strong and weak
         for via in range(3):
-            S.append(case([add(0, 1), {"op": "bind", "s": 0, "ets": [0, 1, 2], "base": 100, "prio": 0, "weak": None, "via": via},
-                           {"op": "bind", "s": 0, "ets": [1, 2], "base": 110, "prio": 4, "weak": 7, "via": via}, R(0), R(1), rmh(101), rmh(111), R(1),
+            S.append(case([add(0, 1), bind([0, 1, 2], 100, via=via), bind([1, 2], 200, 4, 7, via=via), R(0), R(1), rmh(101), rmh(201), R(1),
                            drop(7), R(1), cnt()], [(100, [sc(ret="true")])]))
+        # method-name prefixes (both spellings, positional and keyword arguments), removeListeners with what autoBind returned
+        mixed = [(0, 0), (0, 1), (0, 2), (1, 0), (1, 1), (1, 3), (2, 0), (2, 2)]
+        for via in range(6):
+            for q in (0, 1, 2, 3):
+                S.append(case([add(0, 1, 3), bind(mixed, 100, 3 if q == 1 else 0, None, via, q), R(0), R(1),
+                               {"op": "rmm", "s": 0, "pairs": [[0, 2], [1, 3], [0, 7]]}, R(0), R(1),
+                               {"op": "rmm", "s": 0, "pairs": [[0, 1], [2, 1], [1, 3]]}, R(0), cnt()],
+                              [(110, [sc(ret="true")]), (100, [sc([({"op": "rmm", "s": 0, "pairs": [[0, 1], [0, 2], [0, 3]]}, True)])])]))
         # two sources: handlers of one subscribe / unsubscribe / raise on the other during delivery; shared id counter; shared owners
         two = [source([0, 1]), source([0, 3])]
         S.append(case([add(0, 1, s=0), add(0, 2, s=1), add(0, 3, s=0), add(0, 4, 5, s=1), R(0, s=0), R(0, s=1), cnt(0), cnt(1)],
@@ -681,22 +742,24 @@ class C05(Check):
             if ctx["acceptAll"][s] and a["via"] in (1, 3, 4): a["via"] = 0          # by-name needs a declared set
             return a
         if x < 0.36:
-            return {"op": "rmh", "s": s, "hid": rng.choice([1, 2, 3, 4, 5, 6, 110, 111, 113]), "et": et_or_none()}
+            return {"op": "rmh", "s": s, "hid": rng.choice([1, 2, 3, 4, 5, 6, 100, 101, 110, 111, 123]), "et": et_or_none()}
         if x < 0.46:
             return {"op": "rme", "s": s, "eid": rng.randint(0, ctx["adds"] + 1), "et": et_or_none()}
         if x < 0.52:
             return {"op": "rmp", "s": s, "et": rng.choice(ets), "eid": rng.randint(0, ctx["adds"] + 1), "et2": et_or_none()}
+        if x < 0.53: return {"op": "rmm", "s": s, "pairs": [[rng.choice(ets), rng.randint(0, ctx["adds"] + 1)] for _ in range(rng.randint(0, 4))]}
         if x < 0.54: return {"op": "clear", "s": s}
         if x < 0.59: return {"op": "count", "s": s}
-        if x < 0.63 and depth == 0: return {"op": "drop", "s": 0, "o": rng.choice([1, 2, 3] + ctx["sinkowners"])}
+        if x < 0.63: return {"op": "drop", "s": 0, "o": rng.choice([1, 2, 3] + ctx["sinkowners"])}
         if x < 0.67 and depth == 0 and not ctx["acceptAll"][s]:                     # sinks are bound at top level only (fresh identities)
             ctx["binds"] += 1
             weak = None
             if rng.random() < 0.4:
                 weak = 10 + ctx["binds"]; ctx["sinkowners"].append(weak)
-            ets_ = sorted(rng.sample(range(N_ET), rng.randint(1, 4)))
-            ctx["adds"] += len(ets_)
-            return {"op": "bind", "s": s, "ets": ets_, "base": 100 + 10 * ctx["binds"], "prio": rng.choice([0, 0, 4, -2]), "weak": weak, "via": rng.randint(0, 2)}
+            meths = sorted(rng.sample([(p_, et) for p_ in (0, 1, 2) for et in range(N_ET)], rng.randint(1, 7)))
+            ctx["adds"] += len(meths)
+            return {"op": "bind", "s": s, "meths": [list(m) for m in meths], "pfx": rng.choice([0, 0, 1, 1, 2, 3]), "base": 100 * ctx["binds"],
+                    "prio": rng.choice([0, 0, 4, -2]), "weak": weak, "via": rng.randint(0, 5)}
         return self.raise_(rng.choice(ets), rng.choice(["inst", "inst", "cls"]), rng.random() < 0.3, s)
 
     def rand_ret(self, rng):
@@ -719,9 +782,9 @@ class C05(Check):
         ctx = {"adds": 0, "binds": 0, "sinkowners": [], "nsrc": nsrc, "acceptAll": [sd["acceptAll"] for sd in sources]}
         ops = [self.rand_action(rng, ctx, 0) for _ in range(nops)]
         scripts = []
-        hids = [1, 2, 3, 4, 5, 6] + [100 + 10 * b + et for b in range(1, ctx["binds"] + 1) for et in range(N_ET)]
+        hids = [1, 2, 3, 4, 5, 6] + [100 * b + 10 * p_ + et for b in range(1, ctx["binds"] + 1) for p_ in (0, 1, 2) for et in range(N_ET)]
         for hid in hids:
-            if rng.random() < (0.6 if hid < 100 else 0.25):
+            if rng.random() < (0.6 if hid < 100 else 0.1):
                 sl = []
                 for _ in range(rng.randint(1, 3)):
                     acts = [[self.rand_action(rng, ctx, 1), rng.random() < 0.5] for _ in range(rng.choice([0, 0, 1, 1, 2, 3]))]
